@@ -56,9 +56,9 @@ CHECKS = {
    text="Every configuration (P, leaders, followers per partition) × dataset × 100 queries (20 per table, 5 tables covering every partitionBy variant) is executed on a real in-process cluster wired through the public seams and on a standalone DB fed the same points; rows, order under ORDER BY, per-partition placement sums, redundant followers and partition statistics are compared.",
    note="Clocks are advanced together. Leader queries are retried while a partition has no live handler (availability is C13's subject). Known finding D13 (OFFSET applied twice in pushdown) is matched only when the result equals the prediction computed from the followers' own answers.",
    ref="§3 C10"),
- "C12": dict(cat="model_checking", tech="deviation-bounded exploration of fault sequences on a real in-process cluster with harness-owned links and exact quiescence",
-   text="The base schedule (3/4 inserts through the leader(s), eager delivery) plus every placement of up to 2 fault events (flush one table, flush all, clean stop/start, crash with the directory image of that instant, cut, reconnect, gate, ungate, leader restart, snapshot, restore) at every position, on two tables with different partition keys so per-table offsets diverge; after healing, every table's rows summed over partitions must equal a standalone DB, redundant followers must be identical and leader queries must equal standalone.",
-   note="Layer 1 of DESIGN §C12 only: the TLA+ offset model with trace replay and the real-server cross-check are not built yet. The reconnect policy of server.followSource is re-implemented in the driver.",
+ "C12": dict(cat="model_checking", tech="deviation-bounded exploration of fault sequences on a real in-process cluster with harness-owned links and exact quiescence, plus explicit-state TLC exploration of a TLA+ offset hand-over model whose every behaviour is replayed against the real cluster",
+   text="The base schedule (3/4 inserts through the leader(s), eager delivery) plus every placement of up to 2 fault events (flush one table, flush all, clean stop/start, crash with the directory image of that instant, cut, reconnect, gate, ungate, leader restart, snapshot, restore) at every position, on two tables with different partition keys so per-table offsets diverge; after healing, every table's rows summed over partitions must equal a standalone DB, redundant followers must be identical and leader queries must equal standalone. Second layer: models/c12_follow.tla (per-table stored offsets, follower joins from the earliest offset, skipping per table, flushes, clean restarts, crash to an older image, leader restart) is checked by TLC for ExactlyOnce; its state graph is dumped and every maximal path of the history variable is replayed on the real cluster, comparing per-table applied counts step by step.",
+   note="The reconnect policy of server.followSource is re-implemented in the driver; the cross-check against real server processes over gRPC (layer 3 of DESIGN §C12) is not built. TLC runs as a pre-step of the check (about 15 s); with FixD10=FALSE the model reproduces the repaired defect D10.",
    ref="§3 C12"),
  "C02": dict(cat="fault_enumeration", tech="exhaustive crash-image enumeration: every hit of every instrumented step of every bounded history, plus torn WAL tails, recovered on the real code",
    text="Every history of the bound over 4 inserts, Flush(t1), FlushAll and clean Restart on two tables (one with a WHERE, reaching the offset-only flush path) runs once on the real write path; at every hit of each of 17 instrumented steps the data directory is copied (exactly what SIGKILL at that instant leaves) and the in-flight WAL entry is additionally torn to 6 length classes; every distinct image is recovered by a fresh DB to exact quiescence and compared with the reference model of acknowledged inserts (in-flight: 0 or 1); thorough recovers twice. A real child process exiting inside the hook validates the image abstraction.",
